@@ -62,6 +62,7 @@ type Case struct {
 // ---- the concrete world of one case ----
 
 type world struct {
+	noEdges bool // sessions last long: keep their certificates away from the edges of the validity classes
 	rng     *mrand.Rand
 	now     time.Time
 	X, Y    sdk.AccAddress
@@ -134,16 +135,32 @@ func (w *world) account(name string) (sdk.AccAddress, error) {
 	return nil, fmt.Errorf("unknown account %q", name)
 }
 
-// window -> (NotBefore, NotAfter); margins of minutes so that the verdict never depends on scheduling
+// window -> (NotBefore, NotAfter). Half of the draws are deep inside the class (minutes .. months away from now), half
+// sit at its edge: expired two seconds ago, valid since two seconds, about to expire / about to become valid in two
+// minutes (x509 times have one-second granularity; the forward margins are minutes so that the verdict never
+// depends on scheduling, the backward ones can be tight because time only moves on).
 func (w *world) window(class string) (time.Time, time.Time, error) {
 	min := func(lo, hi int) time.Duration { return time.Duration(lo+w.rng.Intn(hi-lo)) * time.Minute }
+	sec := func(lo, hi int) time.Duration { return time.Duration(lo+w.rng.Intn(hi-lo)) * time.Second }
+	edge := w.rng.Intn(2) == 0 && !w.noEdges
 	switch class {
 	case "ok":
+		if edge {
+			return w.now.Add(-sec(2, 10)), w.now.Add(sec(120, 300)), nil
+		}
 		return w.now.Add(-min(5, 60*24*30)), w.now.Add(min(30, 60*24*365)), nil
 	case "expired":
+		if edge {
+			na := w.now.Add(-sec(2, 10))
+			return na.Add(-min(60, 60*24*365)), na, nil
+		}
 		na := w.now.Add(-min(5, 60*24*30))
 		return na.Add(-min(60, 60*24*365)), na, nil
 	case "notYet":
+		if edge {
+			nb := w.now.Add(sec(120, 300))
+			return nb, nb.Add(min(60, 60*24*365)), nil
+		}
 		nb := w.now.Add(min(10, 60*24*30))
 		return nb, nb.Add(min(60, 60*24*365)), nil
 	}
@@ -432,6 +449,27 @@ func (w *world) request(p Path, provider sdk.Address) (request, error) {
 	}
 	switch p.Extra {
 	case "none":
+	case "badparams": // the request's own parameters are malformed; the ids in the URL are whatever the tokens say
+		switch p.Route {
+		case "manifest":
+			r.body = []string{"{not json", "[{\"Name\":", "<xml/>"}[w.rng.Intn(3)]
+		case "events":
+			q.Set("follow", []string{"maybe", "2", "yes!"}[w.rng.Intn(3)])
+		case "logs":
+			if w.rng.Intn(2) == 0 {
+				q.Set("tail", []string{"-5", "abc", "99999999999"}[w.rng.Intn(3)])
+			} else {
+				q.Set("service", "web,")
+			}
+		case "shell":
+			drop := []string{"cmd0", "tty", "service", "stdin", "podIndex"}[w.rng.Intn(5)]
+			q.Del(drop)
+			if drop == "podIndex" && w.rng.Intn(2) == 0 {
+				q.Set("podIndex", "-1")
+			}
+		default:
+			return request{}, fmt.Errorf("route %q has no parameters of its own", p.Route)
+		}
 	case "spoof": // everything a URL/header can say about another tenant and another provider
 		other := sdk.AccAddress(derive(0, 0, "some other provider")[:20])
 		q.Set("owner", w.Y.String())
